@@ -33,6 +33,7 @@ import (
 	"github.com/zitadel/oidc/v3/pkg/client"
 	"github.com/zitadel/oidc/v3/pkg/client/rp"
 	"github.com/zitadel/oidc/v3/pkg/client/rs"
+	"github.com/zitadel/oidc/v3/pkg/client/tokenexchange"
 	"github.com/zitadel/oidc/v3/pkg/crypto"
 	httphelper "github.com/zitadel/oidc/v3/pkg/http"
 	"github.com/zitadel/oidc/v3/pkg/oidc"
@@ -77,6 +78,8 @@ type party struct {
 	id       string
 	rp       rp.RelyingParty
 	login    http.Handler
+	loginFP  http.Handler // the same login handler asking for response_mode=form_post
+	te       tokenexchange.TokenExchanger
 	callback http.Handler
 	rs       rs.ResourceServer
 	ch       *httphelper.CookieHandler
@@ -88,6 +91,8 @@ type party struct {
 
 type attempt struct {
 	name, b, rp, state string
+	mode               string
+	post               bool // the provider answered with an auto-submitting form: the user agent POSTs the parameters
 	authURL            string
 	reqID              string
 	callbackQuery      string // raw query of the provider's redirect to the relying party
@@ -175,12 +180,19 @@ func NewWorld(w *opdrv.WorldJSON, router string, pkce bool, rng *rand.Rand) *Wor
 		if err != nil {
 			panic("harness: relying party " + id + ": " + err.Error())
 		}
-		p.login = rp.AuthURLHandler(func() string {
+		stateFn := func() string {
 			fw.mu.Lock()
 			defer fw.mu.Unlock()
 			fw.nState++
-			return fmt.Sprintf("st%d-%x+/=&%d", fw.nState, salt, fw.nState*7919) // a state that needs escaping on its way
-		}, p.rp)
+			return fmt.Sprintf("st%d-%x+/=&\"<%d", fw.nState, salt, fw.nState*7919) // a state that needs escaping on its way
+		}
+		p.login = rp.AuthURLHandler(stateFn, p.rp)
+		p.loginFP = rp.AuthURLHandler(stateFn, p.rp, rp.WithResponseModeURLParam(oidc.ResponseModeFormPost))
+		if id == "cw" {
+			if p.te, err = tokenexchange.NewTokenExchangerClientCredentials(ctx, opdrv.Issuer, id, secret, tokenexchange.WithHTTPClient(fw.hc)); err != nil {
+				panic("harness: token exchanger: " + err.Error())
+			}
+		}
 		p.callback = rp.CodeExchangeHandler(func(rw http.ResponseWriter, r *http.Request, tokens *oidc.Tokens[*oidc.IDTokenClaims], state string, _ rp.RelyingParty) {
 			p.last = &got{tokens: tokens, state: state}
 			rw.WriteHeader(http.StatusOK)
@@ -330,7 +342,11 @@ func (w *World) exec(op string, a M) M {
 		b, id := str(a, "b"), str(a, "rp")
 		p := w.rps[id]
 		o := M{"class": "error", "att": "none", "client": false, "redirect": false, "scopes": false, "stateCookie": false, "challenge": "none"}
-		rec, pnc := serve(p.login, httptest.NewRequest(http.MethodGet, "https://rp.example.test/login", nil))
+		login := p.login
+		if str(a, "mode") == "form_post" {
+			login = p.loginFP
+		}
+		rec, pnc := serve(login, httptest.NewRequest(http.MethodGet, "https://rp.example.test/login", nil))
 		if pnc != "" {
 			return M{"class": "panic", "detail": pnc}
 		}
@@ -341,7 +357,7 @@ func (w *World) exec(op string, a M) M {
 			return o
 		}
 		q := loc.Query()
-		at := &attempt{name: fmt.Sprintf("t%d", len(w.atts)+1), b: b, rp: id, state: q.Get("state"), authURL: loc.String()}
+		at := &attempt{name: fmt.Sprintf("t%d", len(w.atts)+1), b: b, rp: id, state: q.Get("state"), authURL: loc.String(), mode: str(a, "mode")}
 		w.atts[at.name] = at
 		o["class"], o["att"] = "redirect", at.name
 		o["client"] = q.Get("client_id") == id && strings.HasPrefix(loc.String(), opdrv.Issuer+"/authorize?")
@@ -383,13 +399,26 @@ func (w *World) exec(op string, a M) M {
 		return M{"class": "noop"}
 	case "OPCallback":
 		at, ok := w.atts[str(a, "att")]
-		o := M{"class": "error", "stateEcho": false, "target": false}
+		o := M{"class": "error", "stateEcho": false, "target": false, "channel": "none"}
 		if !ok || at.reqID == "" {
 			return o
 		}
 		r := opdrv.Serve(w.h, httptest.NewRequest(http.MethodGet, opdrv.Issuer+"/authorize/callback?id="+url.QueryEscape(at.reqID), nil))
 		if r.Panic != "" {
 			return M{"class": "panic", "detail": r.Panic}
+		}
+		if r.Status == http.StatusOK && strings.Contains(r.Body, "<form") {
+			// response_mode=form_post: an auto-submitting form whose action is the redirect URI
+			action, params, ok := opdrv.ParseFormPost(r.Body)
+			if !ok || params.Get("code") == "" {
+				o["body"] = r.Body
+				return o
+			}
+			at.callbackQuery, at.post = params.Encode(), true
+			o["class"], o["channel"] = "code", "form"
+			o["stateEcho"] = params.Get("state") == at.state
+			o["target"] = action == redirectOf[at.rp]
+			return o
 		}
 		loc, err := url.Parse(r.Location)
 		if r.Status != http.StatusFound || err != nil {
@@ -402,7 +431,7 @@ func (w *World) exec(op string, a M) M {
 			return o
 		}
 		at.callbackQuery = loc.RawQuery
-		o["class"] = "code"
+		o["class"], o["channel"] = "code", "query"
 		o["stateEcho"] = q.Get("state") == at.state
 		base := *loc
 		base.RawQuery, base.Fragment = "", ""
@@ -410,7 +439,7 @@ func (w *World) exec(op string, a M) M {
 		return o
 	case "RPCallback":
 		b := str(a, "b")
-		o := M{"class": "error", "sub": "none", "atSub": "none", "client": "none", "at": "none", "rt": "none", "idt": false, "tokenRequests": 0, "stateChecked": false}
+		o := M{"class": "error", "sub": "none", "atSub": "none", "client": "none", "at": "none", "rt": "none", "idt": false, "tokenRequests": 0, "stateChecked": false, "stateToApp": false}
 		at, ok := w.atts[str(a, "att")]
 		id := str(a, "rp")
 		query := "code=forged-code&state=never-issued"
@@ -423,6 +452,10 @@ func (w *World) exec(op string, a M) M {
 		}
 		p := w.rps[id]
 		r := httptest.NewRequest(http.MethodGet, "https://rp.example.test/auth/callback?"+query, nil)
+		if ok && at.post {
+			r = httptest.NewRequest(http.MethodPost, "https://rp.example.test/auth/callback", strings.NewReader(query))
+			r.Header.Set("Content-Type", "application/x-www-form-urlencoded")
+		}
 		jar := w.jarOf(b, id)
 		for k, v := range jar {
 			r.AddCookie(&http.Cookie{Name: k, Value: v})
@@ -445,6 +478,7 @@ func (w *World) exec(op string, a M) M {
 		case p.last != nil && p.last.tokens != nil:
 			t := p.last.tokens
 			o["class"] = "tokens"
+			o["stateToApp"] = ok && p.last.state == at.state
 			o["at"], o["rt"] = w.name("a", t.AccessToken), w.name("f", t.RefreshToken)
 			o["atSub"] = w.atSubject(t.AccessToken)
 			if t.IDTokenClaims != nil {
@@ -571,6 +605,25 @@ func (w *World) exec(op string, a M) M {
 			o["target"] = "registered"
 		} else if sameURL(base.String(), defaultLogout) {
 			o["target"] = "default"
+		}
+		return o
+	case "TokenExchange":
+		s, ok := w.sess[sessKey(a)]
+		o := M{"class": "error", "sub": "none", "at": "none", "issuedType": "none"}
+		p := w.rps[str(a, "rp")]
+		if !ok || p.te == nil {
+			return o
+		}
+		resp, err := tokenexchange.ExchangeToken(ctx, p.te, s.at, oidc.AccessTokenType, "", "", nil, nil, []string{"openid"}, oidc.AccessTokenType)
+		if err != nil || resp == nil {
+			o["detail"] = fmt.Sprint(err)
+			return o
+		}
+		o["class"], o["at"], o["sub"] = "tokens", w.name("a", resp.AccessToken), w.atSubject(resp.AccessToken)
+		if resp.IssuedTokenType == oidc.AccessTokenType {
+			o["issuedType"] = "access"
+		} else {
+			o["issuedType"] = string(resp.IssuedTokenType)
 		}
 		return o
 	case "DeviceStart":
@@ -794,7 +847,7 @@ func (g *gen) next() (string, M) {
 	}
 	sortStrings(names)
 	if len(names) == 0 || g.rng.Intn(6) == 0 {
-		return "Start", M{"b": g.pick("b1", "b2"), "rp": g.pick("cw", "cx", "cj", "cp")}
+		return "Start", M{"b": g.pick("b1", "b2"), "rp": g.pick("cw", "cx", "cj", "cp"), "mode": g.pick("query", "query", "form_post")}
 	}
 	if g.rng.Intn(2) == 0 {
 		at := w.atts[names[g.rng.Intn(len(names))]]
@@ -824,7 +877,9 @@ func (g *gen) next() (string, M) {
 		k := ss[g.rng.Intn(len(ss))]
 		b, id, _ := strings.Cut(k, "/")
 		a := M{"b": b, "rp": id}
-		switch g.rng.Intn(9) {
+		switch g.rng.Intn(10) {
+		case 9:
+			return "TokenExchange", a
 		case 0, 1:
 			a["claim"] = g.pick("own", "own", "other")
 			return "Userinfo", a
